@@ -248,8 +248,12 @@ class Sim:
             else:
                 if kind2 == "ok":
                     job.cb(val)
-                else:
+                elif isinstance(val, Exception):
                     job.ecb(val)
+                else:
+                    # multiprocessing.pool workers only catch Exception: a BaseException that
+                    # escapes the job kills the worker and the result is never reported
+                    self.record("lost", job.id)
         for h in self.hooks:
             h(self, ev)
 
